@@ -130,7 +130,7 @@ static void canon(qtreetbl_t *t, const model_t *m, int withwalk, char *out) {
 }
 
 /* ------------------------------------------------------------------ operations */
-enum { OP_PUT, OP_REMOVE, OP_CLEAR, OP_WALK, OP_ABANDON, OP_NEAREST, OP_NEARWALK, OP_CYCLE, OP_WALKREMOVE };
+enum { OP_PUT, OP_REMOVE, OP_CLEAR, OP_WALK, OP_ABANDON, OP_NEAREST, OP_NEARWALK, OP_CYCLE, OP_WALKREMOVE, OP_PUTALIAS };
 typedef struct { int kind, k, v, j, nm; const char *label; } op_t;
 static op_t OPS[512]; static int NOPS; static int MODE_WALK, WITH_CYCLES;
 static blob_t PROBE[2 * MAXU + 2]; static int NPROBE;
@@ -139,6 +139,7 @@ static int is_strcfg(void) { return CFG == 0 || CFG == 3; }
 static long n_lookup_cmp_checks;
 
 /* full observation of the map: every key of the universe, size, min, max */
+static void do_walk(qtreetbl_t *t, model_t *m, int newmem, int check, const char *after);
 static void observe_map(qtreetbl_t *t, const model_t *m, const char *after) {
     int n = m_count(m);
     /* invalid arguments are refused with EINVAL; they run first so that any effect they had is seen below */
@@ -305,6 +306,14 @@ static int apply(qtreetbl_t *t, model_t *m, const op_t *op, int check, const cha
         case OP_WALK: do_walk(t, m, op->nm, check, after); break;
         case OP_ABANDON: do_abandon(t, m, op->j); break;
         case OP_CYCLE: for (int i = 0; i < op->j; i++) do_abandon(t, m, 1); break;   /* hundreds of traversal starts in one step */
+        case OP_PUTALIAS: {   /* the value argument is the table's own buffer for that key (zero-copy get): the same value is put again */
+            if (!m->present[op->k] || VAL[m->val[op->k]].n == 0) break;
+            size_t sz = 0; void *d = is_strcfg() ? t->get(t, (const char *)KEY[op->k].b, &sz, false) : t->getobj(t, KEY[op->k].b, KEY[op->k].n, &sz, false);
+            if (!d) break;
+            bool r = is_strcfg() ? t->put(t, (const char *)KEY[op->k].b, d, sz) : t->putobj(t, KEY[op->k].b, KEY[op->k].n, d, sz);
+            if (check && !r) vc_viol("map:put-failed", "%s: put of the table's own value buffer returned false", after);
+            break;
+        }
         case OP_WALKREMOVE: do_walkremove(t, m, op->j, check, after); break;
         case OP_NEAREST: return do_nearest(t, m, op->k, 0, op->nm, check, after);
         case OP_NEARWALK: return do_nearest(t, m, op->k, 1, op->nm, check, after);
@@ -316,7 +325,7 @@ static void build_ops(void) {
     NOPS = 0;
     for (int k = 0; k < U; k++) for (int v = 0; v < NV; v++) OPS[NOPS++] = (op_t){OP_PUT, k, v, 0, 0, is_strcfg() ? "qtreetbl_put" : "qtreetbl_putobj"};
     for (int k = 0; k < U; k++) OPS[NOPS++] = (op_t){OP_REMOVE, k, 0, 0, 0, is_strcfg() ? "qtreetbl_remove" : "qtreetbl_removeobj"};
-    if (!MODE_WALK) { OPS[NOPS++] = (op_t){OP_CLEAR, 0, 0, 0, 0, "qtreetbl_clear"}; return; }
+    if (!MODE_WALK) { OPS[NOPS++] = (op_t){OP_CLEAR, 0, 0, 0, 0, "qtreetbl_clear"}; if (NV > 1) for (int k = 0; k < U; k++) OPS[NOPS++] = (op_t){OP_PUTALIAS, k, 0, 0, 0, is_strcfg() ? "qtreetbl_put" : "qtreetbl_putobj"}; return; }
     OPS[NOPS++] = (op_t){OP_CLEAR, 0, 0, 0, 0, "qtreetbl_clear"};     /* clear() keeps the traversal epoch machinery consistent as well */
     OPS[NOPS++] = (op_t){OP_WALK, 0, 0, 0, 0, "qtreetbl_getnext"};
     OPS[NOPS++] = (op_t){OP_WALK, 0, 0, 0, 1, "qtreetbl_getnext"};
@@ -374,7 +383,7 @@ static int transition(const uint16_t *hist, int d, int opi, char *ckey, int verb
     }
     if (!dead) {
         { long w0 = vc_nviol; check_structure(t, &m, after); n_soft += vc_nviol - w0; }   /* shape findings (C02) do not prune the map/traversal search */
-        if (!MODE_WALK) observe_map(t, &m, after);
+        if (!MODE_WALK) { observe_map(t, &m, after); if (NV > 1) { do_walk(t, &m, 0, 1, after); do_walk(t, &m, 1, 1, after); } }   /* values of different sizes: the walk reports the current value and sizes of every key (C03) */
         canon(t, &m, MODE_WALK, ckey);
         verify_held("while the container was still alive");
         t->free(t);
@@ -391,7 +400,7 @@ static int transition(const uint16_t *hist, int d, int opi, char *ckey, int verb
 
 static int mkprefix(char *key, const uint16_t *hist, int d) {
     char *k = key;
-    if (MODE_WALK && CFG) k += sprintf(k, "walkb:%d:%d:", U, START_EPOCH); else if (MODE_WALK) k += sprintf(k, "walk:%d:%d:", U, START_EPOCH); else k += sprintf(k, "map:%d:%d:%d:", CFG, U, NV);
+    if (MODE_WALK && CFG == 1) k += sprintf(k, "walkb:%d:%d:", U, START_EPOCH); else if (MODE_WALK && CFG) k += sprintf(k, "walkc%d:%d:%d:", CFG, U, START_EPOCH); else if (MODE_WALK) k += sprintf(k, "walk:%d:%d:", U, START_EPOCH); else k += sprintf(k, "map:%d:%d:%d:", CFG, U, NV);
     for (int i = 0; i < d; i++) k += sprintf(k, "%d,", hist[i]);
     return k - key;
 }
@@ -455,6 +464,7 @@ static int replay(const char *key) {
     /* map:cfg:U:NV:ops  |  walk:U:epoch:ops */
     const char *p;
     if (!strncmp(key, "map:", 4)) { MODE_WALK = 0; int off; sscanf(key + 4, "%d:%d:%d:%n", &CFG, &U, &NV, &off); p = key + 4 + off; }
+    else if (!strncmp(key, "walkc", 5)) { MODE_WALK = 1; NV = 1; int off; sscanf(key + 5, "%d:%d:%d:%n", &CFG, &U, &START_EPOCH, &off); p = key + 5 + off; WITH_CYCLES = 0; }
     else if (!strncmp(key, "walkb:", 6)) { MODE_WALK = 1; CFG = 1; NV = 1; int off; sscanf(key + 6, "%d:%d:%n", &U, &START_EPOCH, &off); p = key + 6 + off; WITH_CYCLES = 0; }
     else if (!strncmp(key, "walk:", 5)) { MODE_WALK = 1; CFG = 0; NV = 1; int off; sscanf(key + 5, "%d:%d:%n", &U, &START_EPOCH, &off); p = key + 5 + off; WITH_CYCLES = U >= 3; }
     else return 1;
